@@ -30,6 +30,7 @@ static long check_kept(void) {
     return bad;
 }
 
+static int stale_errno = ENOMEM;   /* errno value planted before calls whose result must not depend on it */
 static qtreetbl_t *tbl;
 static qtreetbl_obj_t cur;
 static int quiet = 0;
@@ -139,6 +140,7 @@ int main(void) {
             int q = quiet; quiet = 0; printf("ok "); state(); quiet = q;
         } else if (!strcmp(op, "put") && nw == 3) {
             aw_begin();
+            errno = stale_errno;      /* no result may depend on the errno left by earlier calls */
             bool r = tbl->putobj(tbl, k.p, k.n, v.n ? v.p : NULL, v.n);
             printf("allocs=%ld ", aw_end());
             /* the caller's buffers are released immediately (C12) */
@@ -147,12 +149,14 @@ int main(void) {
         } else if (!strcmp(op, "get") && nw == 2) {
             size_t sz = 0; cmp_calls = 0;
             aw_begin();
+            errno = stale_errno;
             void *d = tbl->getobj(tbl, k.p, k.n, &sz, true);
             printf("allocs=%ld ", aw_end());
             if (d) { printf("data "); puthex(stdout, d, sz); keep(d, sz); } else printf("null");
             printf(" cost=%ld", cmp_calls);
         } else if (!strcmp(op, "rm") && nw == 2) {
             aw_begin();
+            errno = stale_errno;
             bool r = tbl->removeobj(tbl, k.p, k.n);
             printf("allocs=%ld ", aw_end());
             printf("%s ", r ? "true" : "false"); state();
